@@ -221,11 +221,11 @@ def mutations_for(spec):
         if t == "series":
             m += ["pd-index", "pd-dtype"]
     elif t == "frame":
-        m += ["frame-swap-data", "frame-rename", "frame-elem", "frame-index", "frame-swap-dtypes"]
+        m += ["frame-swap-data", "frame-rename", "frame-elem", "frame-index", "frame-swap-dtypes", "frame-nullable-dtype"]
     elif t == "cat":
         m += ["cat-ordered", "cat-categories", "cat-code"]
     elif t == "nullable":
-        m += ["nullable-elem", "nullable-mask"]
+        m += ["nullable-elem", "nullable-mask", "nullable-dtype"]
     elif t == "dc":
         m += ["dc-cls", "dc-field"]
     elif t == "partial":
@@ -513,6 +513,25 @@ def apply_mutation(spec, name, pick):
             s["data"][i] = None
         else:
             return None
+    elif name == "nullable-dtype":
+        # same values (possibly all missing) under another nullable dtype
+        ok = all(v is None or (isinstance(v, (int, float)) and not isinstance(v, bool) and float(v).is_integer()) for v in s["data"])
+        if s["dtype"] == "boolean":
+            if any(v is not None for v in s["data"]):
+                return None
+            s["dtype"] = ["Int64", "Float64"][pick(2)]
+        elif not ok:
+            return None
+        else:
+            s["dtype"] = "Float64" if s["dtype"] == "Int64" else "Int64"
+            s["data"] = [None if v is None else (float(v) if s["dtype"] == "Float64" else int(v)) for v in s["data"]]
+    elif name == "frame-nullable-dtype":
+        idx = [i for i, c in enumerate(s["columns"]) if c["dtype"] == "Int64"]
+        if not idx:
+            return None
+        c = s["columns"][idx[pick(len(idx))]]
+        c["dtype"] = "Float64"
+        c["data"] = [None if v is None else float(v) for v in c["data"]]
     elif name == "dc-cls":
         s["cls"] = "Q" if s["cls"] == "P" else "P"
     elif name == "dc-field":
@@ -661,7 +680,7 @@ def nontrivial(case):
     return case.get("mut") in (
         "np-dtype-same-bytes", "np-reshape", "np-transposed-buffer", "npobj-resplit", "npobj-strbytes", "frame-swap-data",
         "frame-swap-dtypes", "int->float", "int->str", "int->bool", "bool->int", "str->bytes", "bytes->str", "seq-type",
-        "seq-nest", "dict-keytype", "dict-swap-values", "float-sign", "none->str", "cat-categories", "pd-dtype", "nullable-mask",
+        "seq-nest", "dict-keytype", "dict-swap-values", "float-sign", "none->str", "cat-categories", "pd-dtype", "nullable-mask", "nullable-dtype", "frame-nullable-dtype",
     )
 
 
